@@ -120,6 +120,9 @@ type histResult struct {
 	runs    int
 	closeOK bool
 	nops    int
+	// closers family (closers.go)
+	closers       string
+	readerSkipped string
 }
 
 func errClass(err error) string {
@@ -218,6 +221,14 @@ func runHistory(r *ev.Run, v pdf.Version, hist []uint8) histResult {
 			res.fail = &failure{"reread-state-differs", fmt.Sprintf("Builder state %q, state after re-reading %q: %q", libKey, data, k2)}
 			return res
 		}
+	}
+	// the stream completed with the library's closing operators
+	cr := closersVariants(v, hist, b, a, st, got, data)
+	res.runs += cr.runs
+	res.closers, res.readerSkipped = cr.own, cr.readerSkipped
+	if cr.fail != nil {
+		res.fail = cr.fail
+		return res
 	}
 	if f := resetVariant(v, hist, e, ops, false); f != nil {
 		res.runs++
@@ -422,6 +433,8 @@ func builderBFS(r *ev.Run, v pdf.Version, depth int, confNames []string) {
 		r.State(1)
 	}
 	tally := map[string]int{}
+	closerSeqs := map[string]int{}
+	readerSkipped := map[string]int{}
 	perDepth := []int{1}
 	nc := len(calls)
 	for d := 1; d <= depth && len(frontier) > 0; d++ {
@@ -461,6 +474,15 @@ func builderBFS(r *ev.Run, v pdf.Version, depth int, confNames []string) {
 				} else {
 					r.Outcome("builder:accepted,open")
 				}
+				closerSeqs[res.closers]++
+				if res.closers == "" {
+					r.Outcome("builder:closers:none-needed")
+				} else {
+					r.Outcome("builder:closers:completed-valid")
+				}
+				if res.readerSkipped != "" {
+					readerSkipped[res.readerSkipped]++
+				}
 				if !seen[res.key] {
 					seen[res.key] = true
 					r.State(1)
@@ -494,6 +516,23 @@ func builderBFS(r *ev.Run, v pdf.Version, depth int, confNames []string) {
 		frontier = next
 	}
 	r.Dim(fmt.Sprintf("builder_%s_new_states_per_depth", v), perDepth)
+	{
+		longest, histories := "", 0
+		for k, n := range closerSeqs {
+			histories += n
+			if len(strings.Fields(k)) > len(strings.Fields(longest)) || (len(strings.Fields(k)) == len(strings.Fields(longest)) && k < longest) {
+				longest = k
+			}
+		}
+		r.Dim(fmt.Sprintf("builder_%s_closers", v), map[string]any{
+			"histories_completed":          histories,
+			"of_them_nothing_to_close":     closerSeqs[""],
+			"distinct_closer_sequences":    len(closerSeqs),
+			"longest_closer_sequence":      longest,
+			"reader_source_not_judged":     readerSkipped,
+			"judged_sequences_per_history": len(closerSources),
+		})
+	}
 	keys := make([]string, 0, len(tally))
 	for k := range tally {
 		keys = append(keys, k)
